@@ -252,17 +252,30 @@ def system_search(run, rnd, dates, n_pops):
             for label, bad in fs:
                 run.case({"fault": label, "date": date, "pop": common.digest(popgen.frame_to_json(df))})
                 classes[label.split(" to ")[0] if label.startswith("p_id_") else label] = classes.get(label, 0) + 1
-                try:
-                    res = popgen.simulate(bad, date)
-                except Exception:  # noqa: BLE001  rejected: what the property demands
+                # rejection must not depend on where the faulty row sits: the table as built, reversed, and shuffled
+                accepted = None
+                variants = [("", bad)]
+                if isinstance(bad, pd.DataFrame) and len(bad) > 1 and bad.columns.is_unique:
+                    perm = rnd.sample(range(len(bad)), len(bad))
+                    variants += [(" (rows reversed)", bad.iloc[::-1].reset_index(drop=True)),
+                                 (" (rows shuffled)", bad.iloc[perm].reset_index(drop=True))]
+                for suffix, tab in variants:
+                    try:
+                        res = popgen.simulate(tab, date)
+                    except Exception:  # noqa: BLE001  rejected: what the property demands
+                        continue
+                    accepted = (suffix, tab)
+                    break
+                if accepted is None:
                     continue
+                where, bad = accepted
                 cls = label
                 for fk in ("p_id_ehepartner", "p_id_einstandspartner", "p_id_elternteil_1", "p_id_elternteil_2"):
                     cls = cls.replace(fk, "<pointer>")
                 for c in popgen.HH_VARS:
                     cls = cls.replace(c, "<hh column>")
                 run.hit({"kind": "malformed-data-accepted", "fault": cls},
-                        f"a table with the fault '{label}' is simulated at {date} instead of being rejected",
+                        f"a table with the fault '{label}'{where} is simulated at {date} instead of being rejected",
                         {"date": date, "fault": label, "data": {c: [str(x) for x in bad.iloc[:, i].tolist()] for i, c in enumerate(bad.columns)}})
             for label, var in lossless_variants(rnd, df):
                 run.case({"variant": label, "date": date, "pop": common.digest(popgen.frame_to_json(df))})
